@@ -136,6 +136,47 @@ SEEDS = {
    "a transaction with zero events: `\"events\":]}` (malformed JSON, nil error)"),
  "C02-autocommit-dml-not-delivered": ("C02", "parseEvents: the `if autocommit { commit(ev) }` of statement-format INSERT/UPDATE/DELETE removed as dead code",
    "a statement-format DML query event outside BEGIN..COMMIT: merged into the next unit or dropped by the next BEGIN"),
+ # ---- round d ----
+ "C01-strip-checksum-before-format": ("C01", "parseEvents: StripChecksum moved before the format-description check",
+   "CRC32 checksums and a second format-description event in one dump (rotation), then at least one more event"),
+ "C02-ddl-commits-open-transaction": ("C02", "parseEvents DDL branch: `if autocommit || typ.IsDDL()`",
+   "a DDL query event while a transaction is open (e.g. CREATE TEMPORARY TABLE after BEGIN)"),
+ "C03-empty-transaction-not-delivered": ("C03", "commit closure: the handler is skipped for transactions without events while pos still advances",
+   "BEGIN..ROLLBACK followed by another transaction: the label chain has a hole"),
+ "C04-unsupported-event-advances-offset": ("C04", "RAND / INTVAR / ROWS_QUERY branches set pos.Offset = ev.NextPosition() before returning the error",
+   "such an event inside a transaction, then a restart on the same streamer"),
+ "C05-close-error-skips-done": ("C05", "close(): returns early (before close(s.done)) when dc.Close() reports an error",
+   "reader parked holding the next packet, parser stops on a handler error, and Close() fails because the master already dropped the connection"),
+ "C07-rotate-only-to-greater-filename": ("C07", "ROTATE updates the position only if the new file name is lexicographically greater",
+   "index rollover mysql-bin.999999 -> mysql-bin.1000000 / RESET MASTER, then a resume attempt"),
+ "C08-update-after-reuses-before-slice": ("C08", "appendUpdateEventFromRows: an after-image column equal to its before-image column reuses that slice",
+   "an UPDATE with an unchanged non-empty column and a handler that overwrites one image's bytes"),
+ "C09-last-all-null-row-dropped": ("C09", "Rows(): loop guard `pos+minRowLength < len(data)` (should be <=)",
+   "the last row of an event has every present column NULL in all its images"),
+ "C10-bit-metadata-read-swapped": ("C10", "metadataRead: TypeBit moved to the big-endian 2-byte case",
+   "a BIT(n) column parsed through the library's table-map parser, n not in {1,8,9,18,...}"),
+ "C11-negative-zero-integer-part": ("C11", "DECIMAL: the single `0` for an empty integer part is written only if the buffer is empty (`-` already there)",
+   "a negative DECIMAL with -1 < v < 0: `-.50`"),
+ "C12-timestamp-fixed-zone-at-start": ("C12", "printTimestamp renders In(FixedZone(time.Now().Zone())) captured at process start instead of Local()",
+   "a DST zone and an instant whose offset differs from the one at process start"),
+ "C13-mediumblob-third-prefix-byte-shift": ("C13", "CellBytes blob with 3 length bytes: third byte shifted << 8",
+   "a MEDIUMBLOB value of 65536 bytes or more"),
+ "C14-json-fraction-no-zero-padding": ("C14", "opaque TIME/DATETIME in JSON: microseconds printed with strconv.AppendUint (no %06d padding)",
+   "an opaque TIME/DATETIME whose microsecond part is 1..99999"),
+ "C15-identify-names-by-present-index": ("C15", "getIdentifiesFromRow: column NAME looked up by the index among present columns",
+   "partial before image with an omitted column followed by a present one"),
+ "C16-format-rejects-undef-checksum": ("C16", "Format(): rejects checksum algorithm bytes > CRC32 (including 255 = undefined)",
+   "a format description announcing checksum algorithm 255"),
+ "C17-gate-failure-returns-event-pos": ("C17", "parseEvents: the gate-failure branch returns a per-event position tracker instead of pos",
+   "a malformed packet inside an open transaction (after BEGIN / TABLE_MAP / rows)"),
+ "C18-equal-prefix-intervals": ("C18", "Equal: interval-count check replaced by a bounds guard inside the loop over the receiver's intervals",
+   "the other set has the receiver's intervals as a prefix plus extra trailing intervals"),
+ "C19-maria-sequence-parsed-32bit": ("C19", "parseMariadbGTID: sequence parsed with bit size 32",
+   "a MariaDB GTID with sequence >= 2^32 through text"),
+ "C20-event-shape-by-row-count": ("C20", "StreamEvent.MarshalJSON: query-vs-rows shape decided by `no row images` instead of `SQL != \"\"`",
+   "a rows event with zero rows (rendered as a query event), or an event with both SQL and rows"),
+ "C06-errno-1053-as-eof": ("C06", "readBinlogEvent: an ERR packet decoded to *mysql.MySQLError with Number 1053 is turned into the EOF sentinel",
+   "the master ends the dump with an ERR packet whose errno is exactly 1053 (any message) on a connection that produces the driver's error type"),
 }
 
 def parse_detect(path):
